@@ -16,8 +16,9 @@ Variable rc : endian -> Z -> list Z -> option ctx.
 Lemma view_of_model e m : dump_of_view rc (view_of e m) = dump_of_model rc e m.
 Proof.
   unfold dump_of_view, dump_of_model, view_of.
-  cbn [v_endian v_time v_sysinfo v_threads v_tnames v_exception v_breakpad v_misc v_lx_status v_modules v_unloaded].
-  rewrite !sres_opt_of, !sres_list_of. reflexivity.
+  unfold unified_view, unified_model.
+  cbn [v_endian v_time v_sysinfo v_threads v_tnames v_exception v_breakpad v_misc v_lx_status v_modules v_unloaded v_memory v_memory64].
+  rewrite !sres_opt_of, !sres_list_of. destruct (m_memory64 m); [reflexivity|]. destruct (m_memory m); reflexivity.
 Qed.
 
 Lemma bytes_roundtrip e m : wf_model e m = true ->
@@ -28,8 +29,8 @@ Lemma bytes_of_view bs v : decode_dump bs = Some v -> dump_of_bytes rc bs = dump
 Proof. intro H. unfold dump_of_bytes. rewrite H. reflexivity. Qed.
 
 (* ---------------------------------------------------------------- required streams *)
-Lemma streams_required e time sys threads tn exc bp mi st mods unl :
-  dump_of_streams rc e time sys threads tn exc bp mi st mods unl <> None <-> sys <> None /\ threads <> None.
+Lemma streams_required e time sys threads tn exc bp mi st mods unl mems :
+  dump_of_streams rc e time sys threads tn exc bp mi st mods unl mems <> None <-> sys <> None /\ threads <> None.
 Proof.
   unfold dump_of_streams. destruct threads, sys; split; intro H; try (split; discriminate); try discriminate;
     try (exfalso; apply H; reflexivity); destruct H as [H1 H2]; try (exfalso; apply H1; reflexivity); try (exfalso; apply H2; reflexivity).
@@ -38,16 +39,16 @@ Qed.
 Section Streams.
 Variables (e : endian) (time : Z) (s : msysinfo) (ts : list mthread) (tn : list (Z * list Z))
           (exc : option mexception) (bp : option (list Z)) (mi : option (Z * list Z)) (st : option (list Z))
-          (mods : list mmodule) (unl : list munloaded).
+          (mods : list mmodule) (unl : list munloaded) (mems : list mregion).
 Let d : dump :=
   {| d_platform := si_platform s; d_arch := si_arch s; d_time := time;
      d_threads := map (thread_of rc e (si_arch s)) ts; d_names := map tname_of tn;
      d_exc := option_map (exception_of rc e (si_arch s)) exc;
      d_bp := match bp with Some l => breakpad_of l | None => None end;
      d_misc := option_map misc_of mi; d_status := st;
-     d_modules := map module_of mods; d_unloaded := map unloaded_of unl; d_mems := [] |}.
+     d_modules := map module_of mods; d_unloaded := map unloaded_of unl; d_mems := map region_of mems |}.
 
-Lemma streams_some : dump_of_streams rc e time (Some s) (Some ts) tn exc bp mi st mods unl = Some d.
+Lemma streams_some : dump_of_streams rc e time (Some s) (Some ts) tn exc bp mi st mods unl mems = Some d.
 Proof. reflexivity. Qed.
 
 Lemma d_dump_tid : dump_tid d = bp_dump_tid bp.
@@ -206,7 +207,7 @@ Qed.
 Lemma model_some e m d : dump_of_model rc e m = Some d ->
   exists s ts, m_sysinfo m = Some s /\ m_threads m = Some ts /\
     dump_of_streams rc e (m_time m) (Some s) (Some ts) (opt_list (m_tnames m)) (m_exception m) (m_breakpad m) (m_misc m)
-      (m_lx_status m) (opt_list (m_modules m)) (opt_list (m_unloaded m)) = Some d.
+      (m_lx_status m) (opt_list (m_modules m)) (opt_list (m_unloaded m)) (unified_model m) = Some d.
 Proof.
   unfold dump_of_model. destruct (m_threads m) as [ts|], (m_sysinfo m) as [s|]; cbn [dump_of_streams]; try discriminate.
   intro H. exists s, ts. repeat split. exact H.
@@ -228,7 +229,7 @@ Proof.
   intros Hwf Hd. destruct (model_some e m d Hd) as (s & ts & _ & _ & H). cbn [dump_of_streams] in H. inversion H as [Hd']. clear H.
   destruct (wf_model_lists e m Hwf) as [Hm Hu].
   pose proof (streams_pid_time e (m_time m) s ts (opt_list (m_tnames m)) (m_exception m) (m_breakpad m) (m_misc m) (m_lx_status m)
-                (opt_list (m_modules m)) (opt_list (m_unloaded m))) as (H1 & H2 & H3).
+                (opt_list (m_modules m)) (opt_list (m_unloaded m)) (unified_model m)) as (H1 & H2 & H3).
   split; [exact H3|]. cbn [d_modules d_unloaded]. split; [apply (read_modules_wf e); exact Hm|]. split; [apply read_unloaded_wf; exact Hu|].
   split; [exact H1|exact H2].
 Qed.
@@ -243,7 +244,7 @@ Proof.
   intro Hd. destruct (model_some e m d Hd) as (s & ts & _ & Ht & H). cbn [dump_of_streams] in H. inversion H as [Hd']. clear H.
   rewrite Ht. cbn [opt_list].
   exact (streams_threads e (m_time m) s ts (opt_list (m_tnames m)) (m_exception m) (m_breakpad m) (m_misc m) (m_lx_status m)
-           (opt_list (m_modules m)) (opt_list (m_unloaded m))).
+           (opt_list (m_modules m)) (opt_list (m_unloaded m)) (unified_model m)).
 Qed.
 
 Lemma model_requesting e m d : dump_of_model rc e m = Some d ->
@@ -257,7 +258,7 @@ Proof.
   intro Hd. destruct (model_some e m d Hd) as (s & ts & _ & Ht & H). cbn [dump_of_streams] in H. inversion H as [Hd']. clear H.
   rewrite Ht. cbn [opt_list].
   exact (streams_requesting e (m_time m) s ts (opt_list (m_tnames m)) (m_exception m) (m_breakpad m) (m_misc m) (m_lx_status m)
-           (opt_list (m_modules m)) (opt_list (m_unloaded m))).
+           (opt_list (m_modules m)) (opt_list (m_unloaded m)) (unified_model m)).
 Qed.
 
 Lemma model_context e m d s i t cs : dump_of_model rc e m = Some d -> m_sysinfo m = Some s ->
@@ -273,7 +274,7 @@ Proof.
   intros Hd Hs. destruct (model_some e m d Hd) as (s' & ts & Hs' & Ht & H). rewrite Hs in Hs'. inversion Hs'. subst s'.
   cbn [dump_of_streams] in H. inversion H as [Hd']. clear H. rewrite Ht. cbn [opt_list].
   exact (streams_context e (m_time m) s ts (opt_list (m_tnames m)) (m_exception m) (m_breakpad m) (m_misc m) (m_lx_status m)
-           (opt_list (m_modules m)) (opt_list (m_unloaded m)) i t cs).
+           (opt_list (m_modules m)) (opt_list (m_unloaded m)) (unified_model m) i t cs).
 Qed.
 
 Lemma model_offsets p e m d x : wf_model e m = true -> dump_of_model rc e m = Some d -> 0 <= x < two64 ->
@@ -322,9 +323,9 @@ Proof.
   exists s, ts. split; [reflexivity|]. split; [reflexivity|]. cbn zeta.
   cbn [dump_of_streams] in Hd. inversion Hd as [Hd']. clear Hd. split.
   - exact (proj1 (streams_threads rc (v_endian v) (v_time v) s ts (sres_list (v_tnames v)) (sres_opt (v_exception v))
-             (sres_opt (v_breakpad v)) (sres_opt (v_misc v)) (sres_opt (v_lx_status v)) (sres_list (v_modules v)) (sres_list (v_unloaded v)))).
+             (sres_opt (v_breakpad v)) (sres_opt (v_misc v)) (sres_opt (v_lx_status v)) (sres_list (v_modules v)) (sres_list (v_unloaded v)) (unified_view v))).
   - exact (streams_requesting rc (v_endian v) (v_time v) s ts (sres_list (v_tnames v)) (sres_opt (v_exception v))
-             (sres_opt (v_breakpad v)) (sres_opt (v_misc v)) (sres_opt (v_lx_status v)) (sres_list (v_modules v)) (sres_list (v_unloaded v))).
+             (sres_opt (v_breakpad v)) (sres_opt (v_misc v)) (sres_opt (v_lx_status v)) (sres_list (v_modules v)) (sres_list (v_unloaded v)) (unified_view v)).
 Qed.
 
 (* ---------------------------------------------------------------- names as integers *)
@@ -430,11 +431,11 @@ End Crash.
 Lemma bytes_depend_on_streams rc e m1 m2 : wf_model e m1 = true -> wf_model e m2 = true ->
   m_time m1 = m_time m2 -> m_sysinfo m1 = m_sysinfo m2 -> m_threads m1 = m_threads m2 -> m_tnames m1 = m_tnames m2 ->
   m_exception m1 = m_exception m2 -> m_breakpad m1 = m_breakpad m2 -> m_misc m1 = m_misc m2 -> m_lx_status m1 = m_lx_status m2 ->
-  m_modules m1 = m_modules m2 -> m_unloaded m1 = m_unloaded m2 ->
+  m_modules m1 = m_modules m2 -> m_unloaded m1 = m_unloaded m2 -> m_memory m1 = m_memory m2 -> m_memory64 m1 = m_memory64 m2 ->
   dump_of_bytes rc (encode_dump e m1) = dump_of_bytes rc (encode_dump e m2).
 Proof.
-  intros W1 W2 H1 H2 H3 H4 H5 H6 H7 H8 H9 H10. rewrite (bytes_roundtrip rc e m1 W1), (bytes_roundtrip rc e m2 W2).
-  unfold dump_of_model. rewrite H1, H2, H3, H4, H5, H6, H7, H8, H9, H10. reflexivity.
+  intros W1 W2 H1 H2 H3 H4 H5 H6 H7 H8 H9 H10 H11 H12. rewrite (bytes_roundtrip rc e m1 W1), (bytes_roundtrip rc e m2 W2).
+  unfold dump_of_model, unified_model. rewrite H1, H2, H3, H4, H5, H6, H7, H8, H9, H10, H11, H12. reflexivity.
 Qed.
 
 (* ---------------------------------------------------------------- ip / sp by field name *)
@@ -470,10 +471,10 @@ Proof.
   destruct (sres_opt (v_threads v)) as [ts|] eqn:Ht; [|discriminate].
   cbn [dump_of_streams] in Hd. inversion Hd as [Hd']. clear Hd.
   pose proof (streams_pid_time rc (v_endian v) (v_time v) s ts (sres_list (v_tnames v)) (sres_opt (v_exception v))
-                (sres_opt (v_breakpad v)) (sres_opt (v_misc v)) (sres_opt (v_lx_status v)) (sres_list (v_modules v)) (sres_list (v_unloaded v)))
+                (sres_opt (v_breakpad v)) (sres_opt (v_misc v)) (sres_opt (v_lx_status v)) (sres_list (v_modules v)) (sres_list (v_unloaded v)) (unified_view v))
     as (H1 & H2 & H3).
   pose proof (streams_threads rc (v_endian v) (v_time v) s ts (sres_list (v_tnames v)) (sres_opt (v_exception v))
-                (sres_opt (v_breakpad v)) (sres_opt (v_misc v)) (sres_opt (v_lx_status v)) (sres_list (v_modules v)) (sres_list (v_unloaded v)))
+                (sres_opt (v_breakpad v)) (sres_opt (v_misc v)) (sres_opt (v_lx_status v)) (sres_list (v_modules v)) (sres_list (v_unloaded v)) (unified_view v))
     as (_ & H4).
   split; [exact H3|]. split; [reflexivity|]. split; [reflexivity|]. split; [exact H1|]. split; [exact H2|].
   intros i cs Hcs. destruct (H4 i cs Hcs) as (t & _ & Hid & Hname & Hskip). rewrite Hid. split; [exact Hname|exact Hskip].
@@ -540,3 +541,25 @@ Proof.
   destruct (arch =? 0), (arch =? 10), (arch =? 9), (arch =? 5), (arch =? 12), (arch =? 32771), (arch =? 1), (arch =? 3),
     (arch =? 32770), (arch =? 32769); cbn; split; intro H; try reflexivity; try discriminate; try (exfalso; apply H; reflexivity).
 Qed.
+
+(* ---------------------------------------------------------------- stack memory of a thread with a null stack descriptor *)
+Section StackMemory.
+Variable rc : endian -> Z -> list Z -> option ctx.
+Lemma model_stack_memory e m d s t : dump_of_model rc e m = Some d -> m_sysinfo m = Some s -> th_stack t = None ->
+  let regs := map region_of (unified_model m) in
+  let own := mem_at regs (th_stack_base t) in
+  d_mems d = regs /\
+  forall src c,
+    ((exists k, own = Some k /\ readable_u64 regs k (c_sp c) = true) ->
+       choose_stack (d_mems d) (thread_of rc e (si_arch s) t) (Some (src, c)) = own) /\
+    (~ (exists k, own = Some k /\ readable_u64 regs k (c_sp c) = true) ->
+       choose_stack (d_mems d) (thread_of rc e (si_arch s) t) (Some (src, c)) =
+         match mem_at regs (c_sp c) with Some k => Some k | None => own end) /\
+    choose_stack (d_mems d) (thread_of rc e (si_arch s) t) None = own.
+Proof.
+  intros Hd Hs Hnull regs own.
+  destruct (model_some rc e m d Hd) as (s' & ts & _ & _ & H). cbn [dump_of_streams] in H. inversion H as [Hd']. clear H.
+  cbn [d_mems]. split; [reflexivity|]. intros src c.
+  exact (stack_choice regs (thread_of rc e (si_arch s) t) src c).
+Qed.
+End StackMemory.
